@@ -459,3 +459,6 @@ func VerifC06_ExitReleasesTheLockLast() {
 	verifrt.Assert(!unlockedEarly, "data-path-lock-released-only-after-every-subsystem-stopped")
 	verifrt.Reach("exit-completed", subsystemDone && unlocked == 1)
 }
+
+// (shared with C05) a persist that runs while shutdown is closing the topics keeps them.
+func VerifC06_MetadataDuringShutdownKeepsTopics() { VerifC05_MetadataDuringShutdownKeepsTopics() }
